@@ -78,6 +78,10 @@ def main():
     except vlib.Infra as ex:
         print("INFRASTRUCTURE FAILURE: %s" % ex)
         sys.exit(2)
+    except Exception:
+        # a bug of the machinery is not a verdict about the property
+        print("INFRASTRUCTURE FAILURE: the check itself failed\n" + traceback.format_exc())
+        sys.exit(2)
     sys.exit(rc)
 
 
